@@ -1,6 +1,6 @@
 SPECIFICATION Spec
 CONSTANTS
-  Cases <- MC_Cases
+  Slices <- MC_Slices
 INVARIANT OutcomeOK
 INVARIANT AcceptedRuns
 INVARIANT UpdatesHaveParamLayout
